@@ -128,7 +128,8 @@ def worker(args):
     def harness(ctx):
         # ---- manifest (choice variables) ----
         entries = []
-        n_entries = 1 + ctx.choose(args['max_entries'], 'entries')
+        directed = args.get('directed', False)
+        n_entries = 2 if directed else 1 + ctx.choose(args['max_entries'], 'entries')
         for i in range(n_entries):
             e = {'file_name': args['file'] if i == 0 else pick(ctx, FILES, 'file'),
                  'background': pick(ctx, COLORS, 'background'), 'color': pick(ctx, COLORS, 'color')}
@@ -138,7 +139,7 @@ def worker(args):
             t = pick(ctx, TITLES, 'title')
             if t is not None:
                 e['title'] = t
-            if (args['bg0'] if i == 0 else ctx.choose(2, 'background-job') == 1):
+            if (args['bg0'] if i == 0 else (not args['bg0'] if directed else ctx.choose(2, 'background-job') == 1)):
                 e['run_background'] = True
             entries.append(e)
         by_path = {}
@@ -188,7 +189,12 @@ def worker(args):
                             problems.append('%s: %s handed to the page as %r, expected %r (escaped once)' % (what, attr, got, html.escape(orig)))
 
             for step in range(args['requests']):
-                kind = pick(ctx, ['run-listed', 'run-listed', 'run-unlisted', 'stop-path', 'stop-current', 'stop-all', 'status', 'capture', 'index', 'complete'], 'request')
+                forced_path = None
+                if directed and step < 2 and len(listed) == 2:
+                    # a background script and a queued script both under way, then any request
+                    kind, forced_path = 'run-listed', listed[step]
+                else:
+                    kind = pick(ctx, ['run-listed', 'run-listed', 'run-unlisted', 'stop-path', 'stop-current', 'stop-all', 'status', 'capture', 'index', 'complete'], 'request')
                 before_jobs = len(StubJob.log)
                 before_stops = {id(j): j.stops for j in StubJob.log}
                 running_before = {p: jobs.is_running(html.escape(p)) or jobs.is_running(p) for p in listed}
@@ -203,7 +209,7 @@ def worker(args):
                         reqs.append('job completes')
                         continue
                     if kind == 'run-listed':
-                        p = pick(ctx, listed, 'which-path')
+                        p = forced_path if forced_path is not None else pick(ctx, listed, 'which-path')
                         reqs.append('GET /%s' % p)
                         page = fe.run_script(p)
                         e = by_path[p]
@@ -337,6 +343,9 @@ def run(tier, seed):
     q = tier == 'quick'
     items = [{'file': f, 'path': p, 'bg0': bg, 'seed': seed, 'max_entries': 2 if q else 3, 'requests': 4 if q else 5, 'restarts': 8 if q else 40,
               'max_paths': 2400 if q else 200000, 'budget_s': 16 if q else 300} for f in FILES for p in PATHS for bg in (False, True)]
+    # directed: a background script and a queued script both under way, then every kind of request
+    items += [{'file': f, 'path': p, 'bg0': bg, 'directed': True, 'seed': seed, 'max_entries': 2, 'requests': 4 if q else 5, 'restarts': 4 if q else 20,
+               'max_paths': 1200 if q else 100000, 'budget_s': 10 if q else 200} for f in FILES[:3] for p in ('p', 'q&"r<', None) for bg in (False, True)]
     results, skipped = report.run_pool(worker, items, budget_s=common.tier_budget(tier, 70, 900))
     return report.finish(
         PROP, tier, seed, 'exploration', results, skipped,
